@@ -14,6 +14,7 @@ CONSTANTS
   Ckpts = {"soft", "onehot"}
   Moves = "gen"
   InitAlpha = "ctor"
+  CtorOpts = "all"
   AllowKF = FALSE
   Grads = {TRUE, FALSE}
   SelHows = {}
